@@ -148,6 +148,12 @@ RFc0(t) == /\ pc[t] = "r_fc0" /\ Stable(bd[loc[t].b].ver)
            /\ UNCHANGED <<bd, it, rootp, rootlock, loc, abs, seen>>
 Lock(t) == /\ pc[t] = "lock" /\ ~bd[loc[t].b].ver.lk /\ SetBV(loc[t].b, [bd[loc[t].b].ver EXCEPT !.lk = TRUE]) /\ Goto(t, "chk")
            /\ UNCHANGED <<it, rootp, rootlock, loc, abs, seen, res>>
+\* MIDDLE_INSERT_NO_MARK is a defect switch (a definition, overridden by MC_Conc4_bug10.cfg with SwitchOn; independent seeded change C06d):
+\* insert_lv marks the version as inserting only when the new key becomes the lowest / highest of the node or the node splits - an
+\* insert strictly between two keys of a non-full border then unlocks with an unchanged version and no reader notices it.
+MIDDLE_INSERT_NO_MARK == FALSE
+SwitchOn == TRUE
+MiddleInsert(b, k) == Len(bd[b].perm) < F /\ RankOf(b, bd[b].perm, k) > 1 /\ RankOf(b, bd[b].perm, k) <= Len(bd[b].perm)
 Chk(t) == /\ pc[t] = "chk"
           /\ LET l == loc[t] b == l.b ver == bd[b].ver o == Op(t) idx2 == Lookup(b, bd[b].perm, o.k) IN
              IF (ver.del /\ ~ver.root) \/ ver.vs # l.vfb.vs THEN SetBV(b, Unl(ver)) /\ Goto(t, "g0") /\ UNCHANGED <<loc, res>>
@@ -155,7 +161,7 @@ Chk(t) == /\ pc[t] = "chk"
              ELSE IF o.op = "rem" THEN
                     (IF idx2 = NoSlot THEN SetBV(b, Unl(ver)) /\ Ret(t, <<"NOT_FOUND", 0>>) /\ UNCHANGED loc
                      ELSE loc' = [loc EXCEPT ![t].idx = idx2] /\ Goto(t, "r_clear") /\ UNCHANGED <<bd, res>>)
-             ELSE IF l.idx = NoSlot THEN SetBV(b, [ver EXCEPT !.ins = TRUE])
+             ELSE IF l.idx = NoSlot THEN SetBV(b, [ver EXCEPT !.ins = ~(MIDDLE_INSERT_NO_MARK /\ MiddleInsert(b, o.k))])
                                          /\ Goto(t, IF Len(bd[b].perm) = 0 THEN "p_undel" ELSE IF Len(bd[b].perm) = F THEN "s1" ELSE "p_slot") /\ UNCHANGED <<loc, res>>
              ELSE IF idx2 = NoSlot THEN SetBV(b, Unl(ver)) /\ Goto(t, "lv1") /\ UNCHANGED <<loc, res>>
              ELSE loc' = [loc EXCEPT ![t].idx = idx2] /\ Goto(t, "p_set") /\ UNCHANGED <<bd, res>>
